@@ -195,6 +195,8 @@ def build_plans(world):
     # snapshots ask the other way round - both must agree
     ops.append({"op": "dump", "k": obj, "ext": True, "order": 1, "tag": "dfirst"})
     ops += snapshot("d0")
+    # what a write produces is a function of the object: the same bytes in a file that did not exist before
+    ops.append({"op": "write", "k": obj, "dir": "$ROOT/out", "name": "fresh.conf", "readback": True, "tag": "fresh"})
     for n, q in enumerate(world["queries"]):
         for e in q_exec(q):
             e = dict(e)
@@ -243,6 +245,8 @@ def check(world, plans, results):
     if canon(strip_volatile(bytag["dfirst"][0])) != d0:
         v.fail("mutated:dump", "two complete listings in a row differ (a tag/path query or a getter inside the listing changed the object): %s" % first_diff(bytag["dfirst"][0], bytag["d0"][0]))
     w0 = canon(strip_volatile(bytag["d0w"][0]))
+    if bytag.get("fresh") and bytag["fresh"][0].get("bytes") != bytag["d0w"][0].get("bytes"):
+        v.fail("written:target", "econf_writeFile over an existing longer file and into a new file produce different bytes (%d vs %d)" % (len(bytag["d0w"][0].get("bytes") or ""), len(bytag["fresh"][0].get("bytes") or "")))
     kinds = set()
     failing = False
     for n, q in enumerate(world["queries"]):
